@@ -378,7 +378,30 @@ class _WBuf(io.StringIO):
 PATH = "/data/f.csv"
 
 
-def cacher_history(idx, stdlib, headers, between=None, recount_headers=None, extra=None):
+def stdlib_handlers(statable=False):
+    """stdlib the cacher and the cache touch, executed as the trusted base (csv/io/hashlib) or modelled (paths); without `statable` the data file
+    cannot be stat'ed (the cache then keys on the path alone)"""
+    def _safe(fn):
+        def h(i, c, r, a, k):
+            try:
+                return fn(*a, **k)
+            except Exception as ex:  # pylint: disable=W0718
+                raise Raised(type(ex).__name__)
+        return h
+
+    def _nofile(i, c, r, a, k):
+        raise Raised("FileNotFoundError")
+
+    h = {"io.StringIO": lambda i, c, r, a, k: io.StringIO(*a), "csv.writer": _safe(csv.writer), "csv.reader": _safe(csv.reader),
+         "hashlib.sha256": lambda i, c, r, a, k: hashlib.sha256(*a), "os.path.join": lambda i, c, r, a, k: "/".join(a),
+         "os.path.basename": lambda i, c, r, a, k: (a[0].rpartition("/")[2] if isinstance(a[0], str) else Residual(f"os.path.basename({a[0]})"))}
+    if not statable:
+        for nm in ("os.stat", "os.path.getmtime", "os.path.getsize"):
+            h[nm] = _nofile
+    return h
+
+
+def cacher_history(idx, stdlib, headers, between=None, recount_headers=None, extra=None, keep_memory=False):
     """One file through two lives of a FileCacher on one model disk, through the public accessors only: a cold request (nothing in
     memory, nothing on disk), then `between(fs, state)`, then the same requests with nothing in memory (a new process) — what is left
     is the cache directory.  Returns (fs, paths); a path's result is (headers1, monitor1, headers2, monitor2); the calls recorded are
@@ -422,7 +445,8 @@ def cacher_history(idx, stdlib, headers, between=None, recount_headers=None, ext
         if between:
             between(fs, state, it)
         state["phase"] = 2
-        it.store["self.pathed_lines_and_headers"] = {}
+        if not keep_memory:
+            it.store["self.pathed_lines_and_headers"] = {}   # a new process: nothing in memory
         r2 = it.call_function(fa, {"__pos__": [PATH]}, "self")
         m2 = it.call_function(fm, {"__pos__": [PATH]}, "self")
         return r1, m1, r2, m2
@@ -513,7 +537,7 @@ def r2(idx, rep):
             return self
 
     bad = None
-    for change in ("unchanged", "rewritten", "other dialect"):
+    for change in ("unchanged", "rewritten", "other dialect", "unchanged, same process", "rewritten, same process"):
         def extra(fs, state):
             hx = {}
             for nm in ("os.stat", "os.path.getmtime", "os.path.getsize"):
@@ -531,7 +555,7 @@ def r2(idx, rep):
             return hx
 
         def between(fs, state, it, change=change):
-            if change == "rewritten":
+            if change.startswith("rewritten"):
                 state["changed"] = True
             if change == "other dialect":
                 # the later process reads the same file with another delimiter / quotechar (a different CsvPaths configuration)
@@ -539,13 +563,16 @@ def r2(idx, rep):
                     it.store[k] = "|"
                 for k in ("self.csvpaths.quotechar", "self.cache.csvpaths.quotechar"):
                     it.store[k] = '"'
-        fs, ps = cacher_history(idx, stdlib, ["a", "b"], between=between, recount_headers=["c", "d"], extra=extra)
+        fs, ps = cacher_history(idx, stdlib, ["a", "b"], between=between, recount_headers=["c", "d"], extra=extra, keep_memory=change.endswith("same process"))
         if len(ps) != 1 or ps[0].result[0] != "return":
             bad = bad or f"file {change}: {[p.result for p in ps][:2]}"
             continue
         r1, m1, r2_, m2 = ps[0].result[1]
         recounted = 2 in [v for kk, v in ps[0].calls("count")]
-        if change == "unchanged" and (recounted or r2_ != ["a", "b"]):
+        if change == "rewritten, same process" and (not recounted or r2_ != ["c", "d"]):
+            bad = bad or ("the file at a path this CsvPaths instance has already read was rewritten (size 8 → 30, later modification time): the instance still serves the earlier "
+                          f"content's line counts and headers {r2_!r} from memory (counted again: {recounted}); a later job on the same instance stops at the old line count")
+        elif change.startswith("unchanged") and (recounted or r2_ != ["a", "b"]):
             bad = bad or f"file unchanged since it was cached: the entry is not found (counted again: {recounted}, headers {r2_!r})"
         elif change == "other dialect" and (not recounted or r2_ != ["c", "d"]):
             bad = bad or ("the file was cached by a process reading it with delimiter ';' and quotechar \"'\"; a later process reading it with delimiter '|' is served that entry "
@@ -553,7 +580,7 @@ def r2(idx, rep):
         elif change == "rewritten" and (not recounted or r2_ != ["c", "d"]):
             bad = bad or ("the file at the cached path was rewritten (size 8 → 30, later modification time) and the cache still serves the earlier content's "
                           f"line counts and headers {r2_!r}: a run on the new content stops at the old line count and resolves #names against the old headers")
-    rep.check(bad is None, "R2", f"{fr.file}::cache entries are tied to the file's state", bad or "3 histories", K.where(cr, cr.node))
+    rep.check(bad is None, "R2", f"{fr.file}::cache entries are tied to the file's state", bad or "5 histories", K.where(cr, cr.node))
     # cache key: distinct paths (also with the same file name) get distinct keys; the same path the same key
     fn = idx.method("Cache", "_cache_name")
     keys = {}
